@@ -146,6 +146,34 @@ Proof.
 Qed.
 Print Assumptions C20_path_explicit_mapping.
 
+(* containment for EVERY configured root (NewModifier / JSON "rootPath",
+   missing or empty included): the modifier keeps path.Clean(rootPath), which
+   is never empty, and the opened path is that root's canonical elements
+   followed by ordinary elements *)
+Theorem C20_path_under_configured_root : forall rawroot urlpath,
+  let root := configured_root rawroot in
+  root <> [] /\
+  exists T, Forall normal T /\
+    static_path root [] urlpath = render_path (fst (elems root), snd (elems root) ++ T) /\
+    clean root = render_path (fst (elems root), snd (elems root)).
+Proof. exact static_path_under_configured_root. Qed.
+Print Assumptions C20_path_under_configured_root.
+
+Theorem C20_path_under_root_string_general : forall root urlpath, root <> [] ->
+  exists T, Forall normal T /\
+    match snd (elems root), T with
+    | _, [] => static_path root [] urlpath = clean root
+    | [], _ => static_path root [] urlpath =
+                 if fst (elems root) then slash :: join_with slash T else join_with slash T
+    | _, _ => static_path root [] urlpath = clean root ++ slash :: join_with slash T
+    end.
+Proof. exact static_path_string_general. Qed.
+Print Assumptions C20_path_under_root_string_general.
+
+Theorem C20_configured_root_never_empty : forall raw, configured_root raw <> [].
+Proof. exact clean_nonempty. Qed.
+Print Assumptions C20_configured_root_never_empty.
+
 (* the repair's rooting is the identity on the paths net/http produces *)
 Theorem C20_rooting_noop_for_rooted_paths : forall p,
   is_rooted p = true -> clean (slash :: p) = clean p.
